@@ -1609,7 +1609,7 @@ class TOTP:
         # default json format is just serialization of constructor kwds.
         # XXX: just pass all this through to _from_json / constructor?
         # go ahead and mark as changed (needs re-saving) if the version is too old
-        assert cls._check_otp_type(type)
+        cls._check_otp_type(type)
         ver = kwds.pop("v", None)
         if not ver or ver < cls.min_json_version or ver > cls.json_version:
             raise cls._dict_parse_error(f"missing/unsupported version ({ver!r})")
@@ -1622,7 +1622,8 @@ class TOTP:
             # encrypted key, so if to_json() is called again, the encrypted
             # key can be re-used.
             # XXX: wallet is known at this point, could decrypt key here.
-            assert "key" not in kwds  # shouldn't be present w/ enckey
+            if "key" in kwds:  # shouldn't be present w/ enckey
+                raise cls._dict_parse_error("both 'enckey' and 'key' present")
             kwds.update(key=kwds.pop("enckey"), format="encrypted")
         elif "key" not in kwds:
             raise cls._dict_parse_error("missing 'enckey' / 'key'")
